@@ -144,7 +144,7 @@ theorem source_decision_logic : CV.Facts.logicC09 = [
   "clover.DB.FindById: { tx, err := db.store.Begin(false) if err != nil { return nil, err } defer tx.Rollback() ok, err := db.hasCollection(collection, tx) if err != nil { return nil, err } if !ok { return nil, ErrCollectionNotExist } return getDocumentById(collection, id, tx) }", 
   "clover.DB.FindFirst: { docs, err := db.FindAll(q.Limit(1)) var doc *d.Document if len(docs) > 0 { doc = docs[0] } return doc, err }", 
   "clover.DB.ForEach: { q, err := normalizeCriteria(q) if err != nil { return err } return db.IterateDocs(q, func(doc *d.Document) error { if !consumer(doc) { return internal.ErrStopIteration } return nil }) }", 
-  "clover.DB.IterateDocs: { tx, err := db.store.Begin(false) if err != nil { return err } defer tx.Rollback() return db.iterateDocs(tx, q, consumer) }", 
+  "clover.DB.IterateDocs: { q, err := normalizeCriteria(q) if err != nil { return err } tx, err := db.store.Begin(false) if err != nil { return err } defer tx.Rollback() return db.iterateDocs(tx, q, consumer) }", 
   "clover.DB.countCollection: { size, err := db.getCollectionSize(q.Collection()) size -= q.GetSkip() if size < 0 { size = 0 } if q.GetLimit() >= 0 && q.GetLimit() < size { return q.GetLimit(), err } return size, err }", 
   "clover.DB.getCollectionSize: { tx, err := db.store.Begin(false) if err != nil { return -1, err } defer tx.Rollback() meta, err := db.getCollectionMeta(collection, tx) if err != nil { return -1, err } return meta.Size, nil }"] := by rfl
 
